@@ -1046,7 +1046,10 @@ def gen_atom(rng, st):
     # accumulators
     a = rng.choice(["sum", "mean", "store", "store", "count"])
     if a == "store":
-        return {"k": "acc", "a": "store", "group": rng.random() < 0.5}
+        # a StoreFilled that is run again yields its stored value objects again; with yield_as_a_group=False the
+        # elements after it (Count, Variable) would have changed their contexts in place in the earlier run
+        # (aliasing is the subject of C04; this model has value semantics): only the group form where runs repeat
+        return {"k": "acc", "a": "store", "group": True if rerun else rng.random() < 0.5}
     if a == "count":
         return {"k": "acc", "a": "count", "name": rng.choice(COUNT_NAMES)}
     return {"k": "acc", "a": a}
@@ -1086,7 +1089,7 @@ def gen_branch(rng, st, depth):
             fc = {"k": "syn", "run": rng.choice([0, 2]), "call": rng.random() < 0.3, "fill": 2, "compute": 2, "nodata": False}
         else:
             a = rng.choice(["sum", "mean", "store", "store", "count"])
-            fc = ({"k": "acc", "a": "store", "group": rng.random() < 0.5} if a == "store" else
+            fc = ({"k": "acc", "a": "store", "group": True if st["rerun"] else rng.random() < 0.5} if a == "store" else
                   {"k": "acc", "a": "count", "name": rng.choice(COUNT_NAMES)} if a == "count" else {"k": "acc", "a": a})
         # the sequence after the element is run once per Split.run (the model runs it without history)
         ast = new_state(rerun=False, stateless=st["rerun"])
@@ -1290,7 +1293,7 @@ def gen_cases(ctx):
             els = gen_prog(rng, n)
             yield ({"op": "regroup", "els": els, "flow": gen_flow(rng), "term": gen_term(rng), "brks": brks})
     # ---- sampled ------------------------------------------------------------------------------------
-    n_rand = 2500 if not thorough else 60000
+    n_rand = 2500 if not thorough else 40000
     for _ in range(n_rand):
         n = rng.choice([0, 1, 2, 2, 3, 3, 4, 4, 5, 6, 7, 8])
         els = gen_prog(rng, n)
@@ -1301,7 +1304,7 @@ def gen_cases(ctx):
             case["lst"] = True       # Sequence.run is handed the list itself, not an iterator over it
         yield (case)
     # one Sequence object run several times (its elements keep their state): the whole program is a rerun region
-    n_rerun = 700 if not thorough else 15000
+    n_rerun = 700 if not thorough else 12000
     for _ in range(n_rerun):
         n = rng.choice([1, 1, 2, 2, 3, 3, 4, 5])
         st = new_state(rerun=True)
@@ -1309,7 +1312,7 @@ def gen_cases(ctx):
         yield ({"op": "rerun", "els": els, "pasts": [gen_flow(rng, 5) for _ in range(rng.choice([1, 1, 2]))],
                 "flow": gen_flow(rng, 5), "cut": rng.randint(0, n)})
     # Split over stateless sequence branches: the simple schedule splitS and the general splitH against the code
-    for _ in range(300 if not thorough else 5000):
+    for _ in range(300 if not thorough else 4000):
         bst = new_state(rerun=True, stateless=True)
         branches = []
         for _b in range(rng.choice([0, 1, 2, 2, 3])):
@@ -1325,7 +1328,7 @@ def gen_cases(ctx):
             branches.append(b)
         yield ({"op": "splits", "branches": branches, "bufsize": rng.choice([None, 1, 2, 3, 4, 1000, 0]),
                 "flow": gen_flow(rng), "term": gen_term(rng)})
-    n_src = 1000 if not thorough else 20000
+    n_src = 1000 if not thorough else 15000
     for _ in range(n_src):
         n = rng.choice([0, 1, 2, 3, 4, 5, 6])
         els = gen_prog(rng, n)
